@@ -1,5 +1,24 @@
 /* C20 local models: recording hash oracle, QStringList out-of-line helpers */
 #ifdef HAVE_T_struct_QArrayData
+/* list lengths of the harness: a constant when the instance fixes them (case split), else symbolic 0..max */
+#ifndef C_N0
+#define C_N0 -1
+#endif
+#ifndef C_N1
+#define C_N1 -1
+#endif
+#ifndef C_N2
+#define C_N2 -1
+#endif
+#ifndef C_N3
+#define C_N3 -1
+#endif
+#ifndef C_N4
+#define C_N4 -1
+#endif
+uint32_t vp_c20_count(uint32_t which, uint32_t max) { int32_t f = which == 0 ? C_N0 : which == 1 ? C_N1 : which == 2 ? C_N2 : which == 3 ? C_N3 : C_N4;
+  if (f >= 0) { ASSERT((uint32_t)f <= max, "fixed count above the harness maximum"); return (uint32_t)f; }
+  uint32_t n = vp_u32(); ASSUME(n <= max); return n; }
 void vp_c20_string(char *out, uint32_t len, uint16_t c0, uint16_t c1, uint16_t c2) { ASSERT(len <= 3, "c20 string bound"); QAD *d = qs_new(len, 3); uint16_t *p = qs_chars(d); p[0] = c0; p[1] = c1; p[2] = c2; *(QAD**)out = d; }
 /* ---- QCryptographicHash: recording oracle. Logs (algorithm, octet string) per result()/hash() call and returns fresh
    symbolic digest bytes, functionally consistent (same algorithm and input => same digest block). ---- */
@@ -27,6 +46,7 @@ uint32_t vp_hash_alg(uint32_t k) { ASSERT(k < vp_hn, "hash log index"); return v
 uint32_t vp_hash_len(uint32_t k) { ASSERT(k < vp_hn, "hash log index"); return vp_hlog[k].in->f1; }
 uint32_t vp_hash_byte(uint32_t k, uint32_t i) { ASSERT(k < vp_hn && i < vp_hlog[k].in->f1, "hash log index"); return qb_bytes(vp_hlog[k].in)[i]; }
 uint8_t vp_hash_input_eq(uint32_t k, uint32_t l) { ASSERT(k < vp_hn && l < vp_hn, "hash log index"); return qb_eq(vp_hlog[k].in, vp_hlog[l].in); }
+uint8_t vp_hash_same_output(uint32_t k, uint32_t l) { ASSERT(k < vp_hn && l < vp_hn, "hash log index"); return vp_hlog[k].out == vp_hlog[l].out; }
 uint8_t vp_hash_output_is(uint32_t k, char *r) { ASSERT(k < vp_hn, "hash log index"); return *(QAD**)r == vp_hlog[k].out; }
 
 /* ---- QStringList out-of-line helpers (libQt5Core). QList<QString> keeps the QString (one pointer) in the slot itself.
@@ -173,4 +193,34 @@ void _ZSt6__sortIN5QListIN16QXmppDiscoveryIq8IdentityEE8iteratorEN9__gnu_cxx5__o
 void _ZN5QListI7QStringE7deallocEPN9QListData4DataE(char *self, char *d) { }
 void _ZN5QListIN16QXmppDiscoveryIq8IdentityEE7deallocEPN9QListData4DataE(char *self, char *d) { }
 void _ZN5QListIN13QXmppDataForm5FieldEE7deallocEPN9QListData4DataE(char *self, char *d) { }
+
+/* ---- QMap<QString, QXmppDataForm::Field>: class-level model (array backed, overrides the inline members used by
+   verificationString by mangled name).  Semantics of QMap: one value per key (insert replaces), keys() ascending by operator<.
+   Slot = number of the insert call (concrete), a replaced or taken entry is only marked absent. ---- */
+#ifdef HAVE_T_struct_QListData__Data
+#ifndef QM_CAP
+#define QM_CAP 4
+#endif
+struct qm { uint32_t cnt; uint8_t present[QM_CAP]; QAD *key[QM_CAP]; char *val[QM_CAP]; };
+#define QM(self) (*(struct qm**)(self))
+static char *qm_field_ref(char *fieldd) { uint32_t *rc = (uint32_t*)fieldd; if (fieldd) *rc = *rc + 1; return fieldd; }   /* QSharedDataPointer copy: QSharedData::ref at offset 0 */
+void _ZN4QMapI7QStringN13QXmppDataForm5FieldEEC2Ev(char *self) { struct qm *m = malloc(sizeof(struct qm)); ASSUME(m != 0); m->cnt = 0; for (uint32_t i = 0; i < QM_CAP; i++) { m->present[i] = 0; m->key[i] = SHARED_NULL; m->val[i] = 0; } QM(self) = m; }
+void _ZN4QMapI7QStringN13QXmppDataForm5FieldEED2Ev(char *self) { }
+char* _ZN4QMapI7QStringN13QXmppDataForm5FieldEE6insertERKS0_RKS2_(char *self, char *key, char *value) { struct qm *m = QM(self); QAD *k = *(QAD**)key;
+  ASSERT(m->cnt < QM_CAP, "QMap model capacity exceeded"); ASSUME(m->cnt < QM_CAP);
+  for (uint32_t i = 0; i < QM_CAP; i++) { if (i >= m->cnt) break; if (m->present[i] && d_eq(m->key[i], k)) m->present[i] = 0; }
+  uint32_t s = m->cnt; m->key[s] = qad_ref(k); m->val[s] = qm_field_ref(*(char**)value); m->present[s] = 1; m->cnt = s + 1; return (char*)0; }
+uint8_t _ZNK4QMapI7QStringN13QXmppDataForm5FieldEE8containsERKS0_(char *self, char *key) { struct qm *m = QM(self); QAD *k = *(QAD**)key; uint8_t r = 0;
+  for (uint32_t i = 0; i < QM_CAP; i++) { if (i >= m->cnt) break; if (m->present[i] && d_eq(m->key[i], k)) r = 1; } return r; }
+void _ZN4QMapI7QStringN13QXmppDataForm5FieldEE4takeERKS0_(char *ret, char *self, char *key) { struct qm *m = QM(self); QAD *k = *(QAD**)key; uint8_t found = 0; *(char**)ret = 0;
+  for (uint32_t i = 0; i < QM_CAP; i++) { if (i >= m->cnt) break; if (m->present[i] && d_eq(m->key[i], k)) { *(char**)ret = m->val[i]; m->present[i] = 0; found = 1; } }
+  ASSERT(found, "QMap model: take() of a missing key (would return a default-constructed value)"); ASSUME(found); }
+void _ZNK4QMapI7QStringN13QXmppDataForm5FieldEE5valueERKS0_RKS2_(char *ret, char *self, char *key, char *def) { struct qm *m = QM(self); QAD *k = *(QAD**)key; char *v = *(char**)def;
+  for (uint32_t i = 0; i < QM_CAP; i++) { if (i >= m->cnt) break; if (m->present[i] && d_eq(m->key[i], k)) v = m->val[i]; } *(char**)ret = qm_field_ref(v); }
+void _ZNK4QMapI7QStringN13QXmppDataForm5FieldEE4keysEv(char *ret, char *self) { struct qm *m = QM(self); uint32_t n = 0, rank[QM_CAP];
+  for (uint32_t i = 0; i < QM_CAP; i++) { rank[i] = 0; if (i < m->cnt && m->present[i]) { n++;
+    for (uint32_t j = 0; j < QM_CAP; j++) { if (j < m->cnt && j != i && m->present[j] && vpl_qcmp16(m->key[j], m->key[i]) < 0) rank[i]++; } } }
+  struct ld *t = ld_new(n); for (uint32_t p = 0; p < QM_CAP; p++) { if (p >= n) break; for (uint32_t i = 0; i < QM_CAP; i++) { if (i < m->cnt && m->present[i] && rank[i] == p) t->array[LD_B + p] = (char*)qad_ref(m->key[i]); } }
+  *(struct ld**)ret = t; }
+#endif
 #endif
